@@ -246,6 +246,10 @@ def scale_spec(n, shape):
         # one unbroken word of ASCII, fullwidth, CJK and combining characters, a new run every 5 characters
         text = ("aＥ\u0300漢bＤe\u0301x" * (n // 9 + 1))[:n]
         return tuple((text[i : i + 5], _SCALE_PAL[(i // 5) % 4]) for i in range(0, n, 5))
+    if shape == "astral":
+        # characters beyond the BMP: wide (emoji, CJK extension B), zero-width (musical combining mark, variation selector), ordinary
+        text = ("a\U0001f600\U00020000b\U0001d167c\U00010400\U000e0100 d" * (n // 10 + 1))[:n]
+        return tuple((text[i : i + 4], _SCALE_PAL[(i // 4) % 4]) for i in range(0, n, 4))
     if shape == "dense_marks":
         # two combining marks on every base letter: three characters per column
         text = ("e\u0301\u0300o\u0308\u0304" * (n // 6 + 1))[:n]
@@ -296,7 +300,7 @@ def twin_pairs():
     return out
 
 
-SCALE_SHAPES = ("one", "runs7", "unit_runs", "words", "wide", "dense_marks")
+SCALE_SHAPES = ("one", "runs7", "unit_runs", "words", "wide", "dense_marks", "astral")
 
 
 def scale_specs(thorough=False, shapes=SCALE_SHAPES, per_size=2):
